@@ -243,6 +243,9 @@ def main(argv):
             "skipped": ctx.skipped,
             "tables_regenerated_differ": st.tables_changed,
             "tables_not_translatable": st.tables_unavailable,
+            "logic_translated_from_source": [t for t in st.logic_targets if not any(u.startswith(t + ":") for u in st.logic_unavailable)],
+            "logic_not_translatable": st.logic_unavailable,
+            "logic_regenerated_differs": st.logic_changed,
         }
         coverage.update(ctx.notes)
         core.write_evidence(prop, tier, seed, coverage, getattr(mod, "ASSUMPTIONS", []), time.time() - t0, len(violations))
